@@ -233,6 +233,13 @@ def scale_spec(draw, tier):
         # the first requests once more, one sector on: mapping tables fetched for the first pass are not fetched again
         reqs += [[min(size - 1, off + 512), n] for off, n in reqs[:3]]
         spec["repeat"] = True
+    if len(units) >= 2 and draw(st.integers(0, 2)) != 0:
+        # small requests that alternate between the first and the last described unit (mapped by tables far apart): whatever a
+        # reader keeps of the mapping tables, it must not fetch them anew for every change of region
+        a_, b_ = units[0] * unit, units[-1] * unit
+        for i in range(3):
+            reqs += [[min(size - 1, a_ + 1024 * (i + 1)), 512], [min(size - 1, b_ + 512 * i), 512]]
+        spec["alternate"] = True
     spec["requests"] = reqs
     spec["bulk_first"] = draw(st.integers(0, 1 << 30))
     return spec
